@@ -5,3 +5,4 @@ import EaModel.Filter
 import EaModel.Replace
 import EaModel.Producer
 import EaModel.Sched
+import EaModel.Tasks
